@@ -304,9 +304,8 @@ func (r *chunkedReader) ReadRows(buf []parquet.Row) (int, error) {
 	if r.arena == nil {
 		r.arena = make([]byte, 0, 1<<16)
 	}
-	full := r.arena[:cap(r.arena)]
-	for i := range full {
-		full[i] = '#'
+	for i := range r.arena { // what the previous call handed out
+		r.arena[i] = '#'
 	}
 	r.arena = r.arena[:0]
 	for i := 0; i < n; i++ {
